@@ -463,6 +463,37 @@ theorem lawful_uSumMod (m : Int) : LawfulCombiner (Comb.uSumMod m).toCombiner Eq
 theorem lawful_uUnion : LawfulCombiner Comb.uUnion.toCombiner Eq := lawful_of_algebraic_laws userUnion_laws
 theorem lawful_uMaxAbs : LawfulCombiner Comb.uMaxAbs.toCombiner Eq := lawful_of_algebraic_laws userMaxAbs_laws
 
+/-- round 5: "last value seen" (`pipe_ucomb::Last`) is LAWFUL — `merge (fold xs) (fold ys) = fold (xs ++ ys)`, unit
+    `create`, default `build_from_group` — although its `merge` is not commutative. It is an `Option`-accumulator
+    combiner whose binary choice `fun _ v => v` is associative, so `lawful_optCombiner` applies. Consequence: every
+    theorem of C01 / C03 / C05 stated for a `LawfulCombiner` (seq = par for every split, lift = literal, fan-in =
+    fold) covers it, with the engine's partition-order merge; the harness generates it only where the arrival order
+    at the combine is the source order (`pipe::gen_ordered_prog`). -/
+theorem lawful_uLast : LawfulCombiner Comb.uLast.toCombiner Eq := by
+  have e : Comb.uLast.toCombiner = ({
+      create := .none, add := optAdd (fun _ v => v),
+      merge := fun a b => (match b with | .some v => optAdd (fun _ v => v) a v | _ => a),
+      finish := fun a => (match a with | .some v => v | _ => .none),
+      build := fun xs => xs.foldl (optAdd (fun _ v => v)) .none } : VCombiner) := by
+    have h : lastAdd = optAdd (fun _ v => v) := by
+      funext acc v; cases acc <;> rfl
+    rw [← h]; rfl
+  rw [e]; exact lawful_optCombiner (fun _ v => v) (fun _ _ _ => rfl) _
+
+/-- … and its `merge` is NOT commutative (witness), so it lies outside C05's "associative and commutative" clause:
+    what C05's theorems say about it is the partition-order statement only -/
+theorem uLast_not_commutative :
+    Comb.uLast.toCombiner.merge (.some (.int 1)) (.some (.int 2)) ≠
+      Comb.uLast.toCombiner.merge (.some (.int 2)) (.some (.int 1)) := by decide
+
+/-- the fold is the last element: nothing seen finishes as `N`, otherwise the value added last -/
+theorem uLast_value (xs : List Val) (v : Val) :
+    Comb.uLast.toCombiner.finish (Comb.uLast.toCombiner.foldAdd Comb.uLast.toCombiner.create []) = .none ∧
+    Comb.uLast.toCombiner.finish (Comb.uLast.toCombiner.foldAdd Comb.uLast.toCombiner.create (xs ++ [v])) = v := by
+  refine ⟨rfl, ?_⟩
+  show userLast.finish ((xs ++ [v]).foldl lastAdd .none) = v
+  rw [List.foldl_append]; rfl
+
 /-- NEGATIVE CONTROL (outside the hypothesis): "first seen" — `merge a b = a` unless `a` is empty — is associative
     but NOT commutative, so the bridge does not apply to it (the witness shows the failing law) -/
 example : let first : Val → Val → Val := fun a b => match a with | .none => b | _ => a
@@ -482,6 +513,7 @@ theorem lawful_all (c : Comb) : LawfulCombiner c.toCombiner Eq := by
   | uSumMod m => exact lawful_uSumMod m
   | uUnion => exact lawful_uUnion
   | uMaxAbs => exact lawful_uMaxAbs
+  | uLast => exact lawful_uLast
 
 /-- the order TopK / Min / Max use is a total order on ALL values — in particular antisymmetric, which the
     former tie-break on the encoded text was not (`cons 1 0` and `cons 1 nil` have the same text) -/
